@@ -235,6 +235,72 @@ func c03(r *engine.Report, p *engine.Program) {
 		r.Check("R5-preamble", "stream preamble: dialer writes []byte{0}; acceptor requires exactly one zero byte", token.NoPos, okW && okR,
 			"both ends agree on the one-byte 0 preamble and the acceptor builds no Conn otherwise", fmt.Sprintf("preamble writer ok=%v, acceptor check ok=%v", okW, okR))
 	}
+	// R1b each half relays through its own, freshly allocated buffer
+	if read != nil {
+		fresh := false
+		switch x := engine.Unwrap(read.Common().Args[0]).(type) {
+		case *ssa.MakeSlice:
+			fresh = x.Parent() == bh
+		case *ssa.Slice:
+			if al, isAl := x.X.(*ssa.Alloc); isAl && al.Heap && al.Parent() == bh {
+				fresh = true
+			}
+		}
+		r.Check("R1-same-bytes", "bridgeHalf: the relay buffer is allocated by the half itself", bh.Pos(), fresh,
+			"buf is made inside bridgeHalf, so the two directions never share memory", "the relay buffer comes from outside the half (parameter / pool): both directions read into and write out of the same array and bytes are altered in transit when data flows both ways")
+	}
+	// R7 an established dial-side stream does not depend on the dial context any more
+	if dc := p.Func("(*netceptor.Netceptor).DialContext"); dc != nil {
+		var wc *ssa.Call
+		for _, ci := range callsTo(dc, "context.WithCancel") {
+			wc, _ = ci.(*ssa.Call)
+		}
+		okCtx := wc != nil
+		bad := ""
+		if wc != nil {
+			cctxVals := callResult(wc, 0)
+			isDialCtx := func(v ssa.Value, cl *ssa.Function) bool {
+				v = engine.Unwrap(v)
+				// load of a captured cell holding cctx, or the ctx parameter
+				if u, isU := v.(*ssa.UnOp); isU {
+					if fv, isFV := u.X.(*ssa.FreeVar); isFV {
+						return fv.Name() == "cctx" || fv.Name() == "ctx"
+					}
+				}
+				for _, c := range cctxVals {
+					if v == c {
+						return true
+					}
+				}
+				return false
+			}
+			for _, an := range dc.AnonFuncs {
+				for _, b := range an.Blocks {
+					for _, in := range b.Instrs {
+						sel, isSel := in.(*ssa.Select)
+						if !isSel {
+							continue
+						}
+						hasDial, hasOK := false, false
+						for _, st := range sel.States {
+							if c, isC := st.Chan.(*ssa.Call); isC && c.Common().IsInvoke() && c.Common().Method.Name() == "Done" && isDialCtx(c.Common().Value, an) {
+								hasDial = true
+							}
+							if chanKey(st.Chan) == "okChan" {
+								hasOK = true
+							}
+						}
+						if hasDial && !hasOK {
+							okCtx = false
+							bad = engine.FuncName(an)
+						}
+					}
+				}
+			}
+		}
+		r.Check("R7-dial-context-scope", "DialContext: only the pre-establishment watcher waits on the dial context", dc.Pos(), okCtx,
+			"a select arm on the dial context's Done() exists only next to the okChan arm that retires the watcher once the stream is established", "goroutine "+bad+" keeps watching the dial context after the stream is established: when the caller's dial context ends (timeout, cancel) a healthy stream is half-closed and its socket closed mid-transfer")
+	}
 	// R6 streams are cancelled only by 'service unknown' about their own peer
 	monitorUnreachableRule(r, p, "R6-no-spurious-cancel")
 }
